@@ -7,8 +7,10 @@
    compiles, reload in a fresh interpreter, compare canonical graph dumps (identity classes,
    complement links, sharing between system and component tables) with the in-memory graph and
    with the .pil, and finish both ways. *)
-From Coq Require Import List String.
-From PC Require Import Comp.Syntax Comp.Compile Hist.SaveLoad.
+From Coq Require Import List String Ascii.
+Import ListNotations.
+Local Open Scope list_scope.
+From PC Require Import Base.Codes Comp.Syntax Comp.Compile Hist.SaveLoad Sys.System Design.SysFinish Sys.SysLines.
 
 Theorem C16_pil_lines_match_objects_partial : forall c l, In l (emit_comp c) ->
   match l with
@@ -21,3 +23,14 @@ Theorem C16_pil_lines_match_objects_partial : forall c l, In l (emit_comp c) ->
   end.
 Proof. exact pil_lines_match_objects. Qed.
 Print Assumptions C16_pil_lines_match_objects_partial.
+
+(* for a (nested) system: a line is in the specification exactly when it is a line of one of the component instances of the
+   tree (and then it carries that object's name, length, constraint ... by the theorem above) or one of the two lines of a
+   signal of a system of the tree: its sequence line of the recorded length and its `equal` line over the bindings *)
+Theorem C16_system_lines_match_objects_partial : forall f o l, In l (emit_obj f o) <->
+  (exists c, In c (leaves f o) /\ In l (emit_comp c)) \/
+  (exists p comps sigs lens sname entries, In (p, comps, sigs, lens) (systems f o) /\ In (sname, entries) sigs /\
+     In l [PSeq (p +++ sname) (repeat "N"%char (match afind lens sname with Some n => n | None => 0 end)) (match afind lens sname with Some n => n | None => 0 end);
+           PEqual ((p +++ sname, false) :: map (fun '(l0, cname, wc) => (loc_name p comps l0 cname, wc)) entries)]).
+Proof. exact system_lines_match_objects. Qed.
+Print Assumptions C16_system_lines_match_objects_partial.
